@@ -5,11 +5,11 @@
    true iff every planted character is read inside a comment / docstring without ending it and the
    lexer is back in code mode at the end.  [<l>_tmpl indent docs] is the comment fragment of language
    l for the doc strings [docs]. *)
-From Coq Require Import List String.
+From Coq Require Import List String Permutation.
 From TS Require Import Model.Str Model.Outcome Model.Unicode Model.Syntax Model.Attrs Model.Types Model.Parse.
 From TS Require Import Model.Lang.TypeScript Model.Lang.Kotlin Model.Lang.Swift Model.Lang.Scala Model.Lang.Go Model.Lang.Python.
-From TS Require Import Spec.Lexers Spec.C15Spec.
-From TS Require Proofs.C15.
+From TS Require Import Spec.Lexers Spec.C15Spec Spec.C15Render.
+From TS Require Proofs.C15 Proofs.C15_Render Proofs.C15_Kotlin.
 Import ListNotations.
 
 (* ---- front end: parse_comment_attrs delivers one string per doc attribute (which is what `/// s`,
@@ -160,3 +160,30 @@ Print Assumptions C15_ts_refuted.
 Theorem C15_py_refuted : Proofs.C15.c15_refutes C15py (lit "alpha """""" beta").
 Proof. exact Proofs.C15.C15_py_refuted. Qed.
 Print Assumptions C15_py_refuted.
+
+(* ======================= renderer level, the other back ends (Spec/C15Render.v) =======================
+   Kotlin, Swift, Go and Python do not inline struct variants: write_types_for_anonymous_structs prints
+   one helper struct per struct variant IN FRONT of the enum, under a comment typeshare writes itself,
+   and the doc strings of the variant's fields move there.  [c15_item_docs_helpers_first it] is that print
+   order, [c15_item_generated it] the generated comments.  First: the print order is a rearrangement of
+   the IR's doc strings of the item plus the generated comments - nothing lost, nothing else added. *)
+Theorem C15_helpers_first_perm : forall it,
+  Permutation (c15_item_docs_helpers_first it) (c15_item_generated it ++ c15_item_docs it).
+Proof. exact Proofs.C15_Render.c15_helpers_first_perm. Qed.
+Print Assumptions C15_helpers_first_perm.
+
+(* ---- Kotlin, one item through the model's write_struct / write_enum (with the helper data classes) /
+   write_type_alias (typealias and value class), any configuration: the printed text is code parts and
+   `/// ` fragments whose doc strings are exactly [c15_item_docs_helpers_first it], in this order - every doc
+   string of the item reproduced - and the text is contained iff all of them are safe_kt, provided the
+   code parts keep the lexer in code mode (partial for that hypothesis, as C15_file_partial) ---- *)
+Theorem C15_kt_render_partial : forall (cfg : kt_config) it text,
+  kt_write_item cfg it = Ok text ->
+  exists parts,
+    text = text_of (c15_file_pieces C15kt parts) /\
+    docs_of (c15_file_pieces C15kt parts) = c15_item_docs_helpers_first it /\
+    (Forall (c15_code_neutral C15kt) parts ->
+     c15_contained C15kt LCode (mark (c15_file_pieces C15kt parts)) =
+     forallb safe_kt (c15_item_docs_helpers_first it)).
+Proof. exact Proofs.C15_Kotlin.C15_kt_render_partial. Qed.
+Print Assumptions C15_kt_render_partial.
